@@ -18,13 +18,13 @@ pub fn property() -> Property {
     Property {
         id: "C20",
         level: "exploration",
-        rule: "family `session_bytes` (Lab-M, mutational): a generated frame sequence for an established real session in either role - every command for every role, stream ids {0, 2, 3, 4, 0xFFFFFFFF}, payloads up to a few KiB, settings payloads (text, binary, huge values), pushed padding schemes (parsable with sizes up to 2^63-1, unparsable) - mutated by bit flips, truncation, duplication, reordering and length-field corruption, or raw random bytes; delivered in generated fragments; followed by normal use of a sibling stream opened beforehand and of the write path (so that a poisoned scheme is exercised). Monitors: panics in any task (process-wide hook), largest single allocation, virtual-time quiescence (a spinning task stops the virtual clock: real-time watchdog, confirmed by re-running the saved case in a child process), every call returns under the virtual watchdog; afterwards the session is either closed with its waiters released or the sibling still transfers its bytes exactly and the outgoing wire still parses. Family `parsers`: arbitrary and mutated bytes in arbitrary chunking into the private destination / UDP-over-TCP parsers (H5), differential with the reference where the input is valid. Family `http_head` (pure): well-formed requests and a table of hostile request lines / host values, mutated by overwrites, insertions of multi-byte and separator sequences at every position, truncation, or raw bytes, into the HTTP front-end's header-end finder and parse+rewrite functions (H6): no panic, no oversized allocation, header end = first CRLFCRLF (what becomes of a malformed request that is accepted is judged at the listener). Family `socks` (Lab-S, shared with C16): generated and malformed greetings / requests in generated segmentations against the real SOCKS5 listener, with a neighbour connection, optionally another client that sits on the listener with 0-2 bytes of its greeting sent, and a fresh valid connection afterwards (others must be served within 8 s). Family `http_listener` (Lab-S): mutated and random header blocks against the real HTTP listener with a healthy neighbour and a fresh request afterwards. Non-trivial = input that differs from valid traffic and selects >= 2 distinct frame handlers (session_bytes), or is not rejected at its first byte (parsers/listener). Distinct = distinct serialized case. The libFuzzer targets in /verif/fuzz feed the same oracles from bytes in the thorough tier. Family `http_head` (pure): a well-formed generated request, one of 30 hostile request lines / host values, or raw bytes, mutated by up to 3 byte overwrites (separators, UTF-8 lead/continuation bytes, CR, LF, random), up to 3 insertions (multi-byte characters, CR/LF, NUL, ':', '[', ']', '://', '@', ...) and truncation, plus a multi-byte character inserted at every position of every hostile template; oracle: no panic, no oversized allocation, header end = first CRLFCRLF. In the http_listener family a header block without its CRLFCRLF terminator followed by the application's end-of-stream must make the listener let go of the connection within 10 s (C20.spin).",
+        rule: "family `session_bytes` (Lab-M, mutational): a generated frame sequence for an established real session in either role - every command for every role, stream ids {0, 2, 3, 4, 0xFFFFFFFF}, payloads up to a few KiB, settings payloads (text, binary, huge values), pushed padding schemes (parsable with sizes up to 2^63-1, unparsable) - mutated by bit flips, truncation, duplication, reordering and length-field corruption, or raw random bytes; delivered in generated fragments; followed by normal use of a sibling stream opened beforehand and of the write path (so that a poisoned scheme is exercised). Monitors: panics in any task (process-wide hook), largest single allocation, virtual-time quiescence (a spinning task stops the virtual clock: real-time watchdog, confirmed by re-running the saved case in a child process), every call returns under the virtual watchdog; afterwards the session is either closed with its waiters released or the sibling still transfers its bytes exactly and the outgoing wire still parses. Family `parsers`: arbitrary and mutated bytes in arbitrary chunking into the private destination / UDP-over-TCP parsers (H5), differential with the reference where the input is valid. Family `http_head` (pure): well-formed requests and a table of hostile request lines / host values, mutated by overwrites, insertions of multi-byte and separator sequences at every position, truncation, or raw bytes, into the HTTP front-end's header-end finder and parse+rewrite functions (H6): no panic, no oversized allocation, header end = first CRLFCRLF (what becomes of a malformed request that is accepted is judged at the listener). Family `history` (Lab-M, shared with C02): stray, stale, duplicate and out-of-order SYN/PSH/FIN/SYNACK frames from a scripted peer against a real session in either role while the session opens streams of its own under forced pre-emptions (frames that cannot belong to the next stream stay in flight during open_stream) and sends on them: no call may hang, nothing may disturb a stream the frames were not addressed to. Family `socks` (Lab-S, shared with C16): generated and malformed greetings / requests in generated segmentations against the real SOCKS5 listener, with a neighbour connection, optionally another client that sits on the listener with 0-2 bytes of its greeting sent, and a fresh valid connection afterwards (others must be served within 8 s). Family `http_listener` (Lab-S): mutated and random header blocks against the real HTTP listener with a healthy neighbour and a fresh request afterwards. Non-trivial = input that differs from valid traffic and selects >= 2 distinct frame handlers (session_bytes), or is not rejected at its first byte (parsers/listener). Distinct = distinct serialized case. The libFuzzer targets in /verif/fuzz feed the same oracles from bytes in the thorough tier. Family `http_head` (pure): a well-formed generated request, one of 30 hostile request lines / host values, or raw bytes, mutated by up to 3 byte overwrites (separators, UTF-8 lead/continuation bytes, CR, LF, random), up to 3 insertions (multi-byte characters, CR/LF, NUL, ':', '[', ']', '://', '@', ...) and truncation, plus a multi-byte character inserted at every position of every hostile template; oracle: no panic, no oversized allocation, header end = first CRLFCRLF. In the http_listener family a header block without its CRLFCRLF terminator followed by the application's end-of-stream must make the listener let go of the connection within 10 s (C20.spin).",
         assumptions: vec![
             "tokio swallows panics of spawned tasks: they are counted by a process-wide hook on the worker's own thread (current-thread runtime)",
             "a peer may legitimately address the sibling stream or leave its byte stream inside an unfinished frame: the sibling oracle applies only when the hostile bytes end on a frame boundary and do not address the sibling",
             "server sessions in Lab-M have no dial handler attached (streams surface to the harness), so fuzzed destinations never reach a socket",
         ],
-        families: vec![(Box::new(SessFam), 40_000, 2_000_000), (Box::new(ParseFam), 200_000, 4_000_000), (Box::new(HeadFam), 100_000, 3_000_000), (Box::new(HttpFam), 400, 6_000), (Box::new(ServerTunnelFam), 300, 6_000), (Box::new(crate::props::c16::SocksFam), 600, 10_000)],
+        families: vec![(Box::new(SessFam), 40_000, 2_000_000), (Box::new(ParseFam), 200_000, 4_000_000), (Box::new(HeadFam), 100_000, 3_000_000), (Box::new(HttpFam), 400, 6_000), (Box::new(ServerTunnelFam), 300, 6_000), (Box::new(crate::props::c16::SocksFam), 600, 10_000), (Box::new(HistoryShare), 4_000, 150_000)],
     }
 }
 
@@ -137,6 +137,31 @@ pub fn build_hostile(frames: &[(u8, u8, Payload)], mutations: &[Mutation], raw_t
     }
     bytes.extend_from_slice(raw_tail);
     bytes
+}
+
+/// C02's `history` family seen from C20: the scripted peer's stray, stale and duplicate frames are
+/// hostile input, and a session that hangs in a call, closes itself or mixes up streams because of
+/// them did not "continue correctly". Same generator and run; the failure is reported under C20's
+/// own oracle id with C02's as its signature suffix.
+pub struct HistoryShare;
+
+impl Family for HistoryShare {
+    type Case = crate::props::c02::HistoryCase;
+    fn name(&self) -> &'static str {
+        "history"
+    }
+    fn strategy(&self, tier: Tier) -> BoxedStrategy<Self::Case> {
+        crate::props::c02::HistoryFam.strategy(tier)
+    }
+    fn fixed_cases(&self, tier: Tier) -> Vec<Self::Case> {
+        crate::props::c02::HistoryFam.fixed_cases(tier)
+    }
+    fn case_budget_s(&self) -> u64 {
+        crate::props::c02::HistoryFam.case_budget_s()
+    }
+    fn run(&self, case: &Self::Case, cx: &CaseCtx) -> CaseResult {
+        crate::props::c02::HistoryFam.run(case, cx).map_err(|f| if f.oracle == "INFRA" { f } else { Fail::new("C20.continue", format!("C20.continue:{}", f.sig), f.detail) })
+    }
 }
 
 /// The session-level oracle, shared with the fuzz targets.
